@@ -114,6 +114,19 @@ def _detail_acts(p):
     return [a for a in R.all_acts(p) if a[0] in ("detail", "expect", "assert", "fixture")]
 
 
+def same_object(p, rng):
+    """make the raise statements of p raise one exception object: one description copied to most of them, and the
+    program flagged same_exc (runprog: one object per description)"""
+    raises = [a for a in R.all_acts(p) if a[0] == "raise"]
+    plain = [a for a in raises if a[1][0] != "M"]
+    if len(raises) >= 2 and plain:
+        e = rng.choice(plain)[1]
+        for a in raises:
+            if a[1] is not e and rng.random() < 0.7:
+                a[1] = e if a[1][0] != "M" or rng.random() < 0.5 else ["M", [e, e]]
+    p["same_exc"] = True
+
+
 def nontrivial(case):
     p = case["prog"]
     return bool(_detail_acts(p)) and bool(R.raising_acts(p)) or len(_detail_acts(p)) >= 2
@@ -166,7 +179,19 @@ def generate(rng, tier):
     for k in range(n):
         feats = FEATS if k % 4 else frozenset(["details", "cells"])
         p = R.rand_prog(rng, feats=feats, depth=rng.choice([1, 2, 3]), p_raise=rng.choice([0.3, 0.5, 0.8]))
+        if k % 6 == 1:
+            same_object(p, rng)
         cases.append({"prog": p})
+    # one exception OBJECT raised more than once in a run: body and tearDown, body and a cleanup, twice inside one
+    # MultipleExceptions; every raise still gets its traceback and its handler calls
+    for e in (E("ValueError", 1), E("Fail", 2), E("Skip", 1)):
+        for p in (R.mkprog(body=[["onexc", 0], ["raise", e]], teardown=[["raise", e]]),
+                  R.mkprog(setup=[["cleanup", 10, [["raise", e]]]], body=[["raise", e]], teardown=[["onexc", 1], ["raise", e]]),
+                  R.mkprog(body=[["onexc", 0], ["raise", M(e, e)]]),
+                  R.mkprog(body=[["raise", M(e, E("ValueError", 3), e)]], teardown=[["raise", E("ValueError", 3)]])):
+            p = R.retoken(p)
+            p["same_exc"] = True
+            cases.append({"prog": p})
     # the same programs on cases configured with a RunTest factory of their own (the Gallina input leaves it out)
     cases += R.configured(cases, rng, 300 if tier == "quick" else 8000)
     return cases
